@@ -292,7 +292,34 @@ def run(ctx):
         elif t == "kktsolver":
             names = (["ldl", "ldl2", "chol"] + ([] if isqp else ["qr"]) + ([] if (d.q or d.s) else ["chol2"]))
             nm = rng.choice(names); name = "kktsolver:" + nm
-            solB, excB = solve(entry, pr, rng, kkt=nm)
+            spB = False
+            pl_ = getattr(pr, "pl", None) or {}
+            if kind == "feasible" and d.N and "x" in pl_ and "s" in pl_ and rng.random() < 0.5:
+                # the same comparison on a problem whose G has structural zeros, stored sparse for the named solver: the
+                # scaled columns W^-T G[:,k] of 'q'/'s' blocks are dense although G[:,k] is not
+                Gz = None
+                for _ in range(10):
+                    mask = np.array([[1.0 if rng.random() < 0.6 else 0.0 for _ in range(pr.n)] for _ in range(d.Np)]).reshape(d.Np, pr.n)
+                    cand = gp.unpack_iso(gp.pack_iso(pr.G, d) * mask, d)
+                    # the documented rank condition must survive the masking, with the conditioning of the generators
+                    s1_, _, _ = gp.conditioning(cand, pr.A, d)
+                    if s1_ >= 0.2:
+                        Gz = cand
+                        break
+                if Gz is not None and "z" in pl_ and "y" in pl_:
+                    # keep the planted strictly feasible primal AND dual points (the problem stays solvable): h and c follow G
+                    cz = -(Gz.T @ cone.symmetrize(pl_["z"], d)) - pr.A.T @ pl_["y"]
+                    if isqp:
+                        cz = cz - pr.P @ pl_["x"]
+                    prZ = gp.Prob(c=cz, G=Gz, h=Gz @ pl_["x"] + cone.symmetrize(pl_["s"], d), A=pr.A, b=pr.b, dims=d, kind=pr.kind)
+                    if isqp:
+                        prZ.P, prZ.q = pr.P, cz
+                    prZ.rankP = getattr(pr, "rankP", None)
+                    pr = prB = prZ
+                    spB = True
+                    solA, excA = solve(entry, pr, rng)
+                    ctx.count("kktsolver.zero-pattern-sparse-G")
+            solB, excB = solve(entry, pr, rng, kkt=nm, mixed=(True, rng.random() < 0.5, False) if spB else None)
         elif t == "wrapper":
             name = "wrapper:" + w
             solB, excB = solve(w, pr, rng, sparse=rng.random() < 0.3)
